@@ -73,9 +73,11 @@ func (m *MultiEpoch) AddEpoch(epoch uint64, ep *Epoch) error {
 func (m *MultiEpoch) RemoveEpoch(epoch uint64) error {
 	m.mu.Lock()
 	defer m.mu.Unlock()
-	if _, ok := m.epochs[epoch]; !ok {
+	ep, ok := m.epochs[epoch]
+	if !ok {
 		return fmt.Errorf("epoch %d not found", epoch)
 	}
+	dropCachedLookupsOf(ep) // as the other ways of unloading an epoch do
 	delete(m.epochs, epoch)
 	return nil
 }
